@@ -8,6 +8,7 @@ import SwiftMT.Tokeniser
 import SwiftMT.Fields.Registry
 import SwiftMT.Rules
 import SwiftMT.JsonShape
+import SwiftMT.Block
 import SwiftMT.Generated.FakeLangs
 import Driver.Hex
 /-
@@ -208,6 +209,22 @@ def handle (args : List String) : String :=
         if L.memB txt && bicOk then "in" else "out"
       | none => "nokind")
     | none => "bad-op"
+  | "render" :: sep :: pairs =>
+    -- render <lf|crlf> tag:hexcontent ...  →  hex(renderFrom) wf=<0|1> rb=<0|1>
+    let toks := pairs.filterMap (fun p => match p.splitOn ":" with
+      | [t, h] => (unhex h).map (fun c => (t.toList, c))
+      | _ => none)
+    if toks.length != pairs.length then "bad-op" else
+    let sepT : Text := if sep == "crlf" then ['\r', '\n'] else ['\n']
+    let text := renderFrom sepT [] toks
+    let wf := toks.all (fun p => wfTag p.1 && wfc p.2)
+    let st : PState := { rest := text, seen := [], allowDup := true }
+    let rb : Bool := match readAll st (toks.map (·.1)) with
+      | .ok (cs, s') => cs == toks.map (·.2) && isComplete s'
+      | .error _ => false
+    let wfS := cond wf "1" "0"
+    let rbS := cond rb "1" "0"
+    s!"{hex text} wf={wfS} rb={rbS}"
   | ["vallist"] => ",".intercalate (Rules.modelled.map (fun p => toString p.1))
   | ["fldlist"] => ",".intercalate (Fields.registry.map (·.1))
   | ["fld", name, i] => match unhex i with
